@@ -498,7 +498,6 @@ Definition cancel_msg_of (v : option exn) (last : option msg) : option msg :=
 Definition shield_resume (st : state) (id : nat) (w : shwait) (last : option msg) (v : option exn)
                          (outer : list frame) : state * list frame * resume :=
   let last := cancel_msg_of v last in
-  let st := match v with Some (ECancel None) => set_g_owed st true | _ => st end in   (* instrumentation *)
   let proceed (st : state) :=
     match last with
     | Some m =>
@@ -660,7 +659,6 @@ Definition wake (st : state) (w : wait) (v : option exn) : state :=
   | WSleep id _ h, None => set_md (emit (cancel_handle st h) (EvDone id (time st))) (MRun CRet)
   | WSleep _ _ h, Some e => set_md (cancel_handle st h) (MRun (CRaise e))
   | WShYield id, Some (ECancel m) =>
-      let st := match m with None => set_g_owed st true | Some _ => st end in           (* instrumentation *)
       let '(st, ok) := reschedule_delayed st m in
       if ok then set_md (emit st (EvDone id (time st))) (MRun CRet)
       else set_md (set_g_abort st true) (MRun (CRaise EAssert))
@@ -671,7 +669,8 @@ Definition wake (st : state) (w : wait) (v : option exn) : state :=
 (* Instrumentation only (nothing reads these flags): what kind of resumption reaches the innermost await point.
      g_shbroken: an exception was delivered to a coroutine driven by cancel_shielded_await;
      g_late:     an await point outside every shield resumed normally although an enclosing scope had cancel_called;
-     g_owed:     a controller cancellation was swallowed by a shield / shielded yield and not yet delivered;
+     g_owed:     a controller cancellation was accepted while the task was inside a shield / shielded yield and has
+                 not been delivered since;
      g_lost:     an await point outside every shield resumed normally while such a cancellation was owed. *)
 Definition is_shield (f : frame) : bool := match f with FShield _ _ _ _ => true | _ => false end.
 Definition observe_resumption (st : state) (k : list frame) (v : option exn) : state :=
@@ -683,7 +682,8 @@ Definition observe_resumption (st : state) (k : list frame) (v : option exn) : s
        | None =>
            let st := match first_called st (sstack st) with Some _ => set_g_late st true | None => st end in
            if g_owed st then set_g_lost st true else st
-       | Some _ => set_g_owed st false
+       | Some (ECancel None) => set_g_owed st false      (* a foreign cancellation reaches the program *)
+       | Some _ => st
        end.
 
 (* Task.__step(exc) / Task.__wakeup *)
@@ -729,6 +729,14 @@ Definition run_cb (st : state) (f : nat) (c : cb) : state :=
       if fut_done st inner then st else remove_cb st inner (CbInner f)
   end.
 
+(* the controller's task.cancel() is accepted: count it, log it, and note (instrumentation) whether the task is inside
+   ignore_cancellation / a shielded yield at that moment, i.e. whether the request will have to be re-delivered *)
+Definition in_shield (st : state) : bool :=
+  existsb is_shield (frames st) || match frames st with FWait (WShYield _) :: _ => true | _ => false end.
+Definition note_ext (st : state) : state :=
+  let st := emit (set_g_ext st (S (g_ext st))) (EvExt (time st)) in
+  if in_shield st then set_g_owed st true else st.
+
 Definition run_handle (st : state) (k : hkind) : state :=
   match k with
   | HStep => task_step st None
@@ -738,7 +746,7 @@ Definition run_handle (st : state) (k : hkind) : state :=
   | HDeliver s => deliver st s
   | HDelayedCancel m => if task_done st then st else task_cancel (task_uncancel st) m
   | HDelayedPop => set_delayed st None
-  | HExt => if task_done st then st else task_cancel (emit (set_g_ext st (S (g_ext st))) (EvExt (time st))) None
+  | HExt => if task_done st then st else task_cancel (note_ext st) None
   end.
 
 (* ================= BaseEventLoop._run_once ================= *)
